@@ -244,6 +244,9 @@ func pipelineBody(r *explore.Run, rep *report.R, scName string, nsteps int, alph
 		steps[i] = alphabet[r.Free(len(alphabet), fmt.Sprintf("step%d", i))]
 	}
 	order := r.Free(2, "maporder")
+	// In the fault scenarios the informer cache may lag: reads of composed
+	// resources miss the cache and fall through to the uncached client.
+	cacheMiss := faults && r.Bool("cache-miss")
 	s := prepare(state)
 	xrh.BeginExecution(11)
 	xrh.MapOrder(order)
@@ -253,7 +256,12 @@ func pipelineBody(r *explore.Run, rep *report.R, scName string, nsteps int, alph
 	inj := &xrh.FaultInjector{Run: r, Reads: true}
 	s.Inj = inj
 	c := s.Client("xr")
-	rec := xrh.NewXRReconciler(xrd, xrh.XROptions{Cached: c, Runner: runner(&calls)})
+	opts := xrh.XROptions{Cached: c, Runner: runner(&calls)}
+	if cacheMiss {
+		opts.Cached = &xrh.MissingCache{Client: c, Kinds: map[string]bool{"ResA": true, "ResB": true, "ResX": true}}
+		opts.Uncached = s.Client("xr-uncached")
+	}
+	rec := xrh.NewXRReconciler(xrd, opts)
 
 	xrBefore := s.Peek(xrh.XRKey("xr1"))
 	refsBefore := xrh.Refs(xrBefore)
@@ -287,6 +295,25 @@ func pipelineBody(r *explore.Run, rep *report.R, scName string, nsteps int, alph
 	xrAfter := s.Peek(xrh.XRKey("xr1"))
 	log := s.Log[logStart:]
 
+	// An injected failure of a read of a composed resource is a failure to
+	// observe the existing composed resources (or to allocate a name): like a
+	// failing pipeline it must leave everything untouched.
+	observeFailed := false
+	for _, f := range inj.Taken {
+		if strings.HasPrefix(f, "get Res") {
+			observeFailed = true
+		}
+	}
+	if observeFailed {
+		for _, w := range log {
+			if w.Effective && !w.Call.DryRun && isComposedKind(w.Call.Key.Kind) {
+				r.Failf("fail/destructive/observe-error", "reading a composed resource failed (%v), yet the reconcile performed %s (steps %v, observed state %s, cache miss %v)", inj.Taken, w.Call, steps, state, cacheMiss)
+			}
+		}
+		if got := xrh.Refs(xrAfter); strings.Join(got, ",") != strings.Join(refsBefore, ",") {
+			r.Failf("fail/refs-changed/observe-error", "reading a composed resource failed (%v), yet spec.resourceRefs changed from %v to %v", inj.Taken, refsBefore, got)
+		}
+	}
 	if refFails && !faulted {
 		// The pipeline fails: nothing composed may be touched.
 		for _, w := range log {
